@@ -211,12 +211,20 @@ impl Args {
 pub fn parallel<F: Fn(usize, usize) + Sync>(threads: usize, f: F) {
     if threads <= 1 {
         f(0, 1);
+        crate::guard::idle();
         return;
     }
+    crate::guard::idle();
     std::thread::scope(|s| {
         for t in 0..threads {
             let f = &f;
-            std::thread::Builder::new().stack_size(16 << 20).spawn_scoped(s, move || f(t, threads)).unwrap();
+            std::thread::Builder::new()
+                .stack_size(16 << 20)
+                .spawn_scoped(s, move || {
+                    f(t, threads);
+                    crate::guard::idle();
+                })
+                .unwrap();
         }
     });
 }
@@ -240,6 +248,8 @@ pub fn catch<R>(f: impl FnOnce() -> R) -> Result<R, String> {
     let prev = IN_CATCH.with(|c| c.replace(true));
     let res = std::panic::catch_unwind(std::panic::AssertUnwindSafe(f));
     IN_CATCH.with(|c| c.set(prev));
+    // return event: the thread is no longer inside the library (M-return stops watching it)
+    crate::guard::idle();
     match res {
         Ok(r) => Ok(r),
         Err(e) => Err(if let Some(s) = e.downcast_ref::<&str>() {
